@@ -256,7 +256,7 @@ func runC01(c *RuleCtx) {
 	share(runC17, func(o *Obligation) bool {
 		return inSet(o.Rule, "B4", "B6", "B7", "SCHED", "WIRE")
 	})
-	c.Min["R05.2"] = 18
+	c.Min["R05.2"] = 19
 	c.Min["R06.6"] = 5
 	c.Min["R11.3"] = 4
 	c.Min["SCHED"] = 30
